@@ -1,6 +1,7 @@
 import OutlineModel.Proofs.TunnelTime
 import OutlineModel.Model.Metrics
 import OutlineModel.Props.C19
+import OutlineModel.Gen.Wiring
 /-
 C17 — Tunnel time equals the time each client actually had a tunnel open.
 
@@ -67,6 +68,15 @@ theorem schedules_reduce_to_histories :
       C19.oneSection "tunnelTimeMetrics" fn ["activeClients"] = true ∧
       (∀ f ∈ ["connCount", "startTime", "info"], C19.guardedOK "activeClient" f "tunnelTimeMetrics.mu" = true) := by
   decide +kernel
+
+/-- **callers_pair_start_and_stop**: the calls that start and stop a tunnel are made by the service layer
+    exactly for authenticated connections and associations: AddAuthenticated once and only after the
+    authentication-error branch, AddClosed once after the handler returned (TCP); the association's
+    goroutine reports the removal after its copy loop ended (UDP) — regenerated wiring facts; the
+    `tcp` campaign watches the same on the real handler. -/
+theorem callers_pair_start_and_stop :
+    Gen.Wiring.tcpAddAuthenticatedOnlyAfterAuth = true ∧ Gen.Wiring.tcpOpenedOnceBeforeHandle = true ∧
+    Gen.Wiring.tcpClosedOnceAfterHandleConnection = true ∧ Gen.Wiring.natGoroutineRemovesAndCloses = true := by decide
 
 /-- an authenticated connection with an EMPTY key id is stopped like any other (the caller remembers
     that it authenticated instead of testing the id) -/
